@@ -114,6 +114,8 @@ def install_executor2(w):
                params={"runtime_type_name": "dyn", "return_type": "ty", "field_details_list": FDL,
                        "info": "dyn", "result": "dyn"},
                returns="ty",
+               # called by complete_abstract_value only, for an interface or union position
+               requires=["kind_is(return_type, 'UNION') or kind_is(return_type, 'INTERFACE')"],
                # the resolved runtime type is an object type that is a possible type of the
                # abstract type; everything else is a GraphQLError (five cases)
                ensures=["is_str(runtime_type_name)", "kind_is(result, 'OBJECT')",
